@@ -1270,8 +1270,8 @@ class FCN(object):
             batch = self.batch
         g, h = self.get_grad_hessp(x, p, batch)
         constr_grad = self.gauss_constr.get_constrain_grad()
-        constr_hessian = 0.0  # self.gauss_constr.get_constrain_hessp(p)
-        return g + constr_grad, h + constr_hessian
+        constr_hessp = np.dot(self.gauss_constr.get_constrain_hessian(), p)
+        return g + constr_grad, h + constr_hessp
 
     def get_grad_hessp(self, x, p, batch):
         self.model.set_params(x)
@@ -1425,7 +1425,8 @@ class CombineFCN(object):
     def grad_hessp(self, x, p, batch=None):
         grad, hessp = self.get_grad_hessp(x, p, batch)
         constr_grad = self.gauss_constr.get_constrain_grad()
-        return grad + constr_grad, hessp
+        constr_hessp = np.dot(self.gauss_constr.get_constrain_hessian(), p)
+        return grad + constr_grad, hessp + constr_hessp
 
 
 class MixLogLikehoodFCN(CombineFCN):
